@@ -2987,6 +2987,9 @@ Case_BaseLdurStur:
           if (!pick_fp_opcode(o0.as<Vec>(), op_data.element_scalar_op(), InstDB::kHF_D, op_data.element_vector_op(), InstDB::kHF_D, &opcode, &sz))
             goto InvalidInstruction;
 
+          if (diff(o2.as<Vec>().element_type(), VecElementType::kH) != sz)
+            goto InvalidInstruction;
+
           if (sz == 0 && o2.as<Reg>().id() > 15)
             goto InvalidPhysId;
 
@@ -3808,6 +3811,9 @@ Case_BaseLdurStur:
           if (!encode_lmh(size_op.size(), element_index, Out(lmh)))
             goto InvalidElementIndex;
 
+          if (diff(o2.as<Vec>().element_type(), VecElementType::kB) != size_op.size())
+            goto InvalidInstruction;
+
           if (o2.as<Reg>().id() > lmh.max_rm_id)
             goto InvalidPhysId;
 
@@ -4142,6 +4148,9 @@ Case_BaseLdurStur:
           // DUP - Vec (all) <- Vec[N].
           uint32_t element_type = uint32_t(o0.as<Vec>().element_type());
           if (q > 1 || !Support::bit_test(kValidEncodings, (q << 3) | element_type))
+            goto InvalidInstruction;
+
+          if (o0.as<Vec>().element_type() != o1.as<Vec>().element_type())
             goto InvalidInstruction;
 
           uint32_t lsb_index = element_type - 1u;
